@@ -319,6 +319,20 @@ def gen_ext_runs_case(rng, tier):
     return gen_case(rng, tier)
 
 
+def has_datafile_cluster0(case):
+    """an external data file whose offset 0 holds a guest cluster (L2 entry: COPIED with host offset 0) that is directly
+    followed, in guest order, by a cluster stored somewhere else"""
+    if not case["datafile"]:
+        return False
+    cs = 1 << case["cluster_bits"]
+    for g, c in case["clusters"].items():
+        if c.get("t") == "normal" and c.get("host") == 0 and c.get("copied"):
+            nxt = case["clusters"].get(str(int(g) + 1))
+            if nxt and nxt.get("t") == "normal" and nxt.get("host") not in (None, 0, cs):
+                return True
+    return False
+
+
 def gen_case_where(rng, tier, pred, bigbuf=False, tries=4000):
     """a generated case that satisfies pred (the last one tried if none does)"""
     c = None
@@ -613,7 +627,8 @@ class Qcow2Suite(Suite):
         else:
             n = 3000 if tier == "thorough" else 220
         from harness.readers import with_twins
-        directed = [gen_case_where(rng, tier, needs_wide_csize, self.bigbuf)]
+        directed = [gen_case_where(rng, tier, needs_wide_csize, self.bigbuf),
+                    gen_case_where(rng, tier, has_datafile_cluster0, self.bigbuf, tries=20000)]
         if not self.bigbuf:
             directed += [gen_ext_runs_case(rng, tier) for _ in range(12 if tier == "thorough" else 3)]
         return with_twins(directed + [gen_case(rng, tier, self.bigbuf) for _ in range(n)], rng)
